@@ -86,6 +86,11 @@ pub struct ProgSpec {
     /// sentinel is the last user word) / 0xFE00 (the last statement is the last user word)
     #[serde(default)]
     pub fit: u8,
+    /// 0 = none; otherwise the program starts with a 16-bit countdown loop of 32,767 / 32,768 /
+    /// 65,535 / 65,536 iterations (two instructions each): one stretch of execution longer than
+    /// any 16-bit counter
+    #[serde(default)]
+    pub spin: u8,
 }
 
 pub fn pg_op() -> impl Strategy<Value = PgOp> {
@@ -158,7 +163,24 @@ pub fn prog_spec(max_main: usize) -> impl Strategy<Value = ProgSpec> {
             strings,
             raw_words: None,
             fit,
+            spin: 0,
         })
+}
+
+/// Give a few percent of the specs a long countdown loop (see `ProgSpec::spin`); checks that use it
+/// add `extra_budget` to their instruction budgets.
+pub fn with_spin(s: impl Strategy<Value = ProgSpec>) -> impl Strategy<Value = ProgSpec> {
+    (s, crate::pick![40 => Just(0u8), 1 => 1u8..5]).prop_map(|(mut spec, spin)| {
+        if spec.raw_words.is_none() {
+            spec.spin = spin;
+        }
+        spec
+    })
+}
+
+/// Instructions the countdown loop of `spec` executes (plus a margin).
+pub fn extra_budget(spec: &ProgSpec) -> u64 {
+    if spec.spin > 0 && spec.raw_words.is_none() { 140_000 } else { 0 }
 }
 
 /// ProgSpec whose program is an arbitrary word image (never containing RTI encodings).
@@ -429,9 +451,26 @@ pub fn build(spec: &ProgSpec) -> Built {
             let running_off = spec.raw_words.is_none() && spec.ending == Ending::RunOff;
             if !running_off && nominal as usize + n < end {
                 // (a program that runs off its end would walk through the padding)
-                let pad = end - nominal as usize - n;
+                let mut pad = end - nominal as usize - n;
+                // the padding ends with a string that the program prints first (fit 1, 2)
+                const TAIL: &str = "TAIL!";
+                let with_tail = spec.raw_words.is_none() && spec.fit != 3 && pad > TAIL.len() + 1;
+                if with_tail {
+                    pad -= TAIL.len() + 1;
+                }
                 // (hex: lace warns about decimal counts above 32767, on the same stream as program output)
                 b.program.lines.push(Line::stmt(None, Stmt::new(Op::Blkw, &[], Operand::Lit(Lit::Hex(pad as u16, 0)))));
+                if with_tail {
+                    let at = (nominal as usize + n + pad) as u16;
+                    b.program.lines.push(Line::stmt(Some("TAILS"), Stmt::new(Op::Stringz, &[], Operand::Str(TAIL.into()))));
+                    for l in &mut b.program.lines {
+                        if matches!(&l.label, Some((name, _)) if name == "PTAIL") {
+                            if let Body::Stmt(s) = &mut l.body {
+                                s.operand = Operand::Lit(Lit::Hex(at, 0));
+                            }
+                        }
+                    }
+                }
             }
             b
         }
@@ -476,6 +515,7 @@ fn build_at(spec: &ProgSpec, orig: u16, force_orig_line: bool) -> Built {
         ending = Ending::Halt;
     }
     let nsubs = spec.subs.len().min(3);
+    let tail_reader = matches!(spec.fit, 1 | 2) && ending != Ending::RunOff;
     let mut b = B { lines: Vec::new(), pending: None, n_label: 0, brk: false };
     if orig_line {
         b.lines.push(Line { label: None, body: Body::Orig(Lit::Hex(orig, (spec.orig_sel & 3) as u8)) });
@@ -484,6 +524,18 @@ fn build_at(spec: &ProgSpec, orig: u16, force_orig_line: bool) -> Built {
 
     let emit_main = |b: &mut B, selfmods: &mut Vec<(String, u16)>| {
         b.label("MAIN".into());
+        if tail_reader {
+            // print the string that the image-fit padding ends with (see `build`): the words at the
+            // very top of the image must have been loaded
+            b.emit(Stmt::new(Op::Ld, &[0], lbl("PTAIL")));
+            b.emit(Stmt::simple(Op::Puts));
+        }
+        if spec.spin > 0 {
+            b.emit(Stmt::new(Op::Ld, &[5], lbl("SPINC")));
+            b.label("SPINL".into());
+            b.emit(Stmt::new(Op::Add, &[5, 5], imm(-1)));
+            b.emit(Stmt::new(Op::Br(5, true), &[], lbl("SPINL")));
+        }
         b.emit(Stmt::new(Op::And, &[0, 0], imm(0)));
         emit_ops(b, &spec.main, spec, 0, nsubs, selfmods);
         match ending {
@@ -548,6 +600,14 @@ fn build_at(spec: &ProgSpec, orig: u16, force_orig_line: bool) -> Built {
         for (k, a) in [0xFFFEu16, 0xFFFF, 0x0000, 0x0001].iter().enumerate() {
             b.label(format!("PW{k}"));
             b.emit(Stmt::new(Op::Fill, &[], Operand::Lit(Lit::Hex(*a, 0))));
+        }
+        if spec.spin > 0 {
+            b.label("SPINC".into());
+            b.emit(Stmt::new(Op::Fill, &[], Operand::Lit(Lit::Hex([0x7FFFu16, 0x8000, 0xFFFF, 0x0000][(spec.spin as usize - 1) % 4], 0))));
+        }
+        if tail_reader {
+            b.label("PTAIL".into());
+            b.emit(Stmt::new(Op::Fill, &[], Operand::Lit(Lit::Hex(0, 0))));
         }
         b.label("TGT".into());
         let tgt = match ending {
@@ -668,6 +728,8 @@ fn build_at(spec: &ProgSpec, orig: u16, force_orig_line: bool) -> Built {
             "P1" => orig.wrapping_add(at["D6"] as u16),
             "P2" => outside(spec.orig_val),
             "P3" => outside(spec.orig_val >> 3),
+            // (re-pointed at the tail string by `build` when there is room for one)
+            "PTAIL" => orig.wrapping_add(at["S0"] as u16),
             _ => continue,
         };
         if let Body::Stmt(s) = &mut l.body {
